@@ -324,6 +324,56 @@ pub fn c41_tick_scan_top_fold<'a>(a: Stream<u32, P<'a>>) {
         .embedded_output("total");
 }
 
+/// a shared batch whose previous-tick contents are looked at by two consumers
+pub fn c41_tee_two_defers<'a>(a: Stream<u32, P<'a>>) {
+    let tick = a.location().tick();
+    let batch = a.batch(&tick, nondet!(/** test */));
+    let prev1 = batch.clone().defer_tick();
+    let prev2 = batch.clone().defer_tick().map(q!(|x| x + 1));
+    let cnt = batch.count();
+    prev1.chain(prev2).cross_singleton(cnt).all_ticks().embedded_output("out");
+}
+
+/// the second process of the network flows
+pub struct P2 {}
+
+/// send to a second process, which transforms and outputs
+pub fn c41_net_echo<'a>(p2: &Process<'a, P2>, a: Stream<u32, P<'a>>) {
+    a.map(q!(|x| x + 1))
+        .send(p2, TCP.fail_stop().bincode().name("fwd"))
+        .map(q!(|x| x * 2))
+        .embedded_output("remote_out");
+}
+
+/// there and back again, with a tee on the remote side feeding remote state
+pub fn c41_net_round_trip<'a>(p2: &Process<'a, P2>, a: Stream<u32, P<'a>>) {
+    let p1 = a.location().clone();
+    let remote = a.send(p2, TCP.fail_stop().bincode().name("there"));
+    let r2 = remote.clone();
+    r2.map(q!(|x| x + 100)).embedded_output("remote_seen");
+    remote
+        .filter(q!(|x| *x % 2 == 0))
+        .send(&p1, TCP.fail_stop().bincode().name("back"))
+        .embedded_output("out");
+}
+
+/// a forward reference whose cycle goes through the network (allowed: asynchronous)
+pub fn c41_net_forward_ref_cycle<'a>(p2: &Process<'a, P2>, a: Stream<u32, P<'a>>) {
+    let p1 = a.location().clone();
+    let (complete, fwd) = p1.forward_ref::<Stream<u32, _, _, NoOrder>>();
+    let merged = a.merge_unordered(fwd);
+    merged
+        .clone()
+        .assume_ordering::<hydro_lang::live_collections::stream::TotalOrder>(nondet!(/** test */))
+        .embedded_output("out");
+    let back = merged
+        .filter(q!(|x| *x < 50))
+        .send(p2, TCP.fail_stop().bincode().name("there"))
+        .map(q!(|x| x + 7))
+        .send(&p1, TCP.fail_stop().bincode().name("back"));
+    complete.complete(back);
+}
+
 // ------------------------------------------------------------------------------------ C31
 
 /// the batch every slice observes, as one Vec per slice
